@@ -7,7 +7,7 @@ from sexpr import enc, hexs
 from odata_query import ast
 
 def prop_mods(pid):
-    base = ["ODataVerif.Tie.Orm", "ODataVerif.Spec.NumFn"] + [m for m in ("ODataVerif.Props.DateOrder",) if os.path.exists(common.lean_module_path(m))]
+    base = ["ODataVerif.Tie.Orm", "ODataVerif.Spec.NumFn"] + [m for m in ("ODataVerif.Props.DateOrder", "ODataVerif.Props.BoolLit", "ODataVerif.Props.NullFlip") if os.path.exists(common.lean_module_path(m))]
     for m in (f"ODataVerif.Props.{pid}",):
         if os.path.exists(common.lean_module_path(m)):
             base.append(m)
@@ -104,6 +104,16 @@ def build_filters(ctx, features_drop=()):
             filters.append(orchain(terms)); filters.append(orchain(terms[:3])); filters.append(ast.UnaryOp(ast.Not(), orchain(terms)))
             filters.append(ast.BoolOp(ast.Or(), terms[0], ast.BoolOp(ast.Or(), terms[1], ast.BoolOp(ast.Or(), terms[2], terms[3]))))      # right-nested
         filters.append(orchain(eqs)); filters.append(orchain([ast.Compare(ast.NotEq(), I(col), l) for l in lits]))
+    # a null guard joined with a comparison on the SAME operand (`x ne null and x gt 3`, either order, the operand on either side), alone and under every
+    # negating context: the conjunction is FALSE on a NULL row where the bare comparison is UNKNOWN, so dropping the "redundant" guard shows only under not / eq false
+    for col, lits in (("i1", [ast.Integer("3"), ast.Integer("-1")]), ("s1", [S("ab")])):
+        for lit in lits:
+            for cmpop in (ast.Gt, ast.Eq, ast.NotEq):
+                for cmpn in (ast.Compare(cmpop(), I(col), lit), ast.Compare(cmpop(), lit, I(col))):
+                    for guard, join in ((ast.Compare(ast.NotEq(), I(col), ast.Null()), ast.And), (ast.Compare(ast.Eq(), I(col), ast.Null()), ast.Or),
+                                        (ast.Compare(ast.NotEq(), ast.Null(), I(col)), ast.And)):
+                        for conj in (ast.BoolOp(join(), guard, cmpn), ast.BoolOp(join(), cmpn, guard)):
+                            filters += [conj, ast.UnaryOp(ast.Not(), conj), ast.Compare(ast.Eq(), conj, ast.Boolean("false")), ast.Compare(ast.NotEq(), conj, ast.Boolean("true"))]
     # filters of ONE shape that differ only in a literal INSIDE a function of literals, one after the other (statement caches keyed on the shape
     # must not carry the first filter's constant into the next)
     for lits in (["ABC", "AB", "B", "A", "O'B"], ["abc", "ab", "b", "a", "é"]):
@@ -329,6 +339,46 @@ def run(ctx, pid="C02"):
                 viol.append((tn, None, None, f"[{sname}] the named-parameter call selects {rn[:60]} but the positional call {tp!r} selects {rp[:60]}"))
             else:
                 named_tally["agree"] += 1
+    # pattern stream: matchesPattern with patterns that are plain text (no regular-expression metacharacter: the match is case-SENSITIVE containment) and a few
+    # anchored / class patterns on which ECMAScript and the reference below agree; rows whose strings differ from the patterns only in letter case
+    import re as _re
+    PAT_VALUES = [None, "", "copy", "Copy", "COPY", "photocopy", "PHOTOCOPY", "a copy b", "cop", "cópy", "ab1", "AB1", "ab", "1ab2", "x.y", "xzy"]
+    prow = [{"id": k + 1, "i1": k % 3, "i2": None, "s1": v, "s2": PAT_VALUES[(k * 5 + 2) % len(PAT_VALUES)], "b1": None} for k, v in enumerate(PAT_VALUES)]
+    load_rows(prow)
+    PATTERNS = ["copy", "Copy", "COPY", "cop", "ab1", "AB", "1ab", "y", "^copy", "copy$", "^ab", "b1$", "x.y", "[0-9]", "^[a-z]+$", "o"]
+    pat_tally = collections.Counter()
+    for sname, fn in styles:
+        for pat in PATTERNS:
+            for tmpl, neg, extra in (("matchesPattern(s1, '{p}')", False, None), ("not matchesPattern(s1, '{p}')", True, None), ("matchesPattern(s1, '{p}') eq true", False, None),
+                                     ("matchesPattern(s1, '{p}') and i1 eq 1", False, lambda r: r["i1"] == 1), ("matchesPattern(s2, '{p}') or i1 eq 0", False, "or0")):
+                t = tmpl.format(p=pat)
+                r = fn(t)
+                ctx.evaluations += 1
+                if not r.startswith("ids"):
+                    pat_tally["refused:" + " ".join(r.split(" ")[:2])] += 1
+                    if not (r.startswith("lib ") or r == "notimpl"):
+                        viol.append((t, None, None, f"[{sname}] matchesPattern leaks {r[:80]}"))
+                    continue
+                col = "s2" if "s2" in t else "s1"
+                want = set()
+                for row in prow:
+                    v = row[col]
+                    m = None if v is None else bool(_re.search(pat, v))
+                    if extra == "or0":
+                        ok = (m is True) or row["i1"] == 0
+                    else:
+                        m = (None if m is None else (not m)) if neg else m
+                        ok = (m is True) and (extra is None or extra(row))
+                    if ok:
+                        want.add(row["id"])
+                got = {int(x) for x in r.split()[1:]}
+                if got != want:
+                    pat_tally["MISMATCH"] += 1
+                    viol.append((t, None, None, f"[{sname}] matchesPattern selects {sorted(got)} but the pattern matches exactly the rows {sorted(want)} (values {[(r_['id'], r_[col]) for r_ in prow if (r_['id'] in got) != (r_['id'] in want)][:4]})"))
+                else:
+                    pat_tally["agree"] += 1
+    ctx.extra["pattern_stream"] = dict(pat_tally)
+    load_rows(rows_sets[0])
     ctx.extra["named_parameter_calls"] = dict(named_tally)
     ctx.extra["judged_numeric"] = dict(ntally_all)
     ctx.note(f"numeric stream (floor / ceiling / round x 6 comparisons x 7 constants, with and without a NULL row, every entry style, Spec.NumFn): {dict(ntally_all)}")
